@@ -402,6 +402,7 @@ func checkC10Counts(r *core.Run, p *core.Program, a *analysis) {
 	}
 	// (5) EndDocument: unresolved forward references reject, then terminal
 	if got, f := ctxSummary(p, a, "EndDocument"); f != nil {
+		got = canonEffect(got)
 		ok := strings.HasPrefix(got, "if(?pure:len($_this.forwardLocalReferences)>0){") && strings.Contains(got, "reject}") && strings.HasSuffix(got, "ctx.ChangeRule(terminalRule)")
 		r.Check("C10.counts", "rules.Context.EndDocument", f.Decl.Pos(), ok, "EndDocument must reject unresolved forward references and then enter the terminal context; it does `"+got+"`")
 	} else {
